@@ -15,7 +15,7 @@ import vp
 
 ORDER = {"p1": 1, "p2": 2, "p1m1": 2, "p1g1": 2, "p2mm": 4, "p2mg": 4, "p2gg": 4}
 FAMILY = {"p1": "Monoclinic", "p2": "Monoclinic"}
-FORMULAS = {"C09": ["C09Deterministic", "C09Output"], "C10": ["C10Best", "C10Labels", "C10Monotone"],
+FORMULAS = {"C09": ["C09Deterministic", "C09Output", "C10Cmp"], "C10": ["C10Best", "C10Labels", "C10Monotone", "C10Cmp"],
             "C20": ["C20Cli"]}
 
 
@@ -194,7 +194,7 @@ def project(records, path):
     """Ranks for scores, tokens for digests; one ndjson line per record."""
     vals = set()
     for r in records:
-        for k in ("score_bits", "written_bits", "logged_bits"):
+        for k in ("score_bits", "written_bits", "logged_bits", "a_bits", "b_bits"):
             if r.get(k):
                 v = f64_of(r[k])
                 if v == v and abs(v) != float("inf"):
@@ -220,6 +220,9 @@ def project(records, path):
                                      "threads": r.get("threads", 0), "expName": r.get("expName", ""),
                                      "expFamily": r.get("expFamily", ""), "expCopies": r.get("expCopies", 0),
                                      "expItems": r.get("expItems", 0), "desc": r.get("desc", r.get("args", ""))}))
+        elif r["ev"] == "cmp":
+            lines.append(json.dumps({"ev": "cmp", "a": rk(r["a_bits"]), "b": rk(r["b_bits"]), "ord": r["ord"], "eq": r["eq"],
+                                     "maxb": r["maxb"], "desc": r.get("desc", "")}))
         elif r["ev"] == "replica":
             lines.append(json.dumps({"ev": "replica", "r": r["r"], "score": rk(r.get("score_bits")), "digest": tok(r.get("digest"))}))
         else:
